@@ -90,6 +90,9 @@ fn hist(kbx: &Sexp, ops: &[Sexp]) -> R<Sexp> {
                 _ => Err(format!("hist op: {}", op.to_text())),
             }
         }));
+        // a schedule set by (stop-after n) applies to the next request only (the timer of a
+        // finished solve()/solve_all() is cancelled)
+        if name == "ask" || name == "solve" || name == "solve-all" { verif_stop_after_reads(None); }
         // separator between the outputs of consecutive operations
         print!("\x03");
         match r {
